@@ -57,7 +57,8 @@ BACKENDS = [({'type': 'file', 'layout': 'tc'}, 3), ({'type': 'file', 'layout': '
             ({'type': 'file', 'layout': 'arcgis'}, 1), ({'type': 'compact', 'version': 1}, 3), ({'type': 'compact', 'version': 2}, 3)]
 # SQLite backends: the database is the real library on a tmpfs file, its calls are pre-emption points and its busy waits run in
 # simulated time (checks/simsql.py); TileManager-level runs without process kills only
-SQL_BACKENDS = [({'type': 'mbtiles'}, 2), ({'type': 'sqlite'}, 1)]
+SQL_BACKENDS = [({'type': 'mbtiles'}, 2), ({'type': 'sqlite'}, 2), ({'type': 'geopackage'}, 1), ({'type': 'geopackage_level'}, 1)]
+SQL_TYPES = ('mbtiles', 'sqlite', 'geopackage', 'geopackage_level')
 LOCKDIR = '/simfs/locks'
 _seq = [0]
 
@@ -141,7 +142,10 @@ def gen(t, tier):
           'minimize': bool(t.chance(0.25)) and not bulk, 'bulk': bulk, 'creators': t.pick([1, 1, 2, 3]),
           'policy': t.pick([['sticky', 0.1], ['sticky', 0.3], ['sticky', 0.6], ['random']]), 'mode': mode,
           'bufsize': t.pick([4096, 8192])}
-    if sc['backend']['type'] in ('mbtiles', 'sqlite') and mode == 'kill':
+    # the worker processes start together: each builds its cache object and tile manager when its first request runs (the
+    # other threads of the process wait for it), not one after the other before the first request
+    sc['lazy'] = bool(t.chance(0.3))
+    if sc['backend']['type'] in SQL_TYPES and mode == 'kill':
         mode = sc['mode'] = 'plain'
     if (sc['backend']['type'] == 'compact' or sc['backend'].get('layout') in ('tc', 'tms')) and not sc['backend'].get('link'):
         if not bulk and t.chance(0.3):
@@ -199,6 +203,10 @@ def gen(t, tier):
         procs[c % nproc if t.chance(0.5) else t.choice(nproc)]['clients'].append(reqs)
     sc['procs'] = [p for p in procs if p['clients']]
     sc['holes'] = holes
+    if sc['backend']['type'] == 'file' and not sc['backend'].get('link') and sc.get('stack') != 'wsgi' and not holes and t.chance(0.3):
+        # a cache with a dimension (WMS TIME): every client asks for its own value; the values share the tile lock, not the tiles
+        for p in sc['procs']:
+            p['dims'] = [t.pick([None, '2020', '2020', '2021']) for _ in p['clients']]
     if mode == 'kill' and len(sc['procs']) < 2:
         sc['mode'] = 'plain'
     if sc['mode'] == 'plain' and sc.get('stack') != 'wsgi' and t.chance(0.3):
@@ -217,6 +225,8 @@ def shrink(sc):
                 continue
             c = copy.deepcopy(sc)
             del c['procs'][pi]['clients'][ci]
+            if c['procs'][pi].get('dims'):
+                del c['procs'][pi]['dims'][ci]
             c['procs'] = [q for q in c['procs'] if q['clients']]
             if c['mode'] == 'kill' and len(c['procs']) < 2:
                 continue
@@ -244,6 +254,8 @@ def shrink(sc):
     if len(sc['procs']) > 1 and sc['mode'] != 'kill':
         c = copy.deepcopy(sc)
         merged = {'clients': [cl for p in c['procs'] for cl in p['clients']]}
+        if any(p.get('dims') for p in c['procs']):
+            merged['dims'] = [d for p in c['procs'] for d in (p.get('dims') or [None] * len(p['clients']))]
         c['procs'] = [merged]
         yield c
 
@@ -442,11 +454,12 @@ def _run_tm(sc, tape):
     viol = []
     killed = []
 
-    sql = sc['backend']['type'] in ('mbtiles', 'sqlite')
+    sql = sc['backend']['type'] in SQL_TYPES
     realdir = None
     simsql = None
     if sql:
         from mapproxy.cache import mbtiles as mbtiles_mod
+        from mapproxy.cache import geopackage as gpkg_mod
         from checks.simsql import SimSqlite
         _seq[0] += 1
         realdir = '/dev/shm/verif-c08-%d-%d' % (_REAL['os.getpid'](), _seq[0])
@@ -460,10 +473,15 @@ def _run_tm(sc, tape):
         # MBTilesLevelCache guards its per-level dictionary with a threading.Lock held across database calls
         from simkit.sched import simulate_module_primitives
         simulate_module_primitives(w, mbtiles_mod)
+        w.extra_patches.append((gpkg_mod, 'sqlite3', simsql))
+        simulate_module_primitives(w, gpkg_mod)
 
     def make_cache():
         if sql:
-            return C.make_cache(sc['backend'], '/proc/self/cwd/cache', sqlite_timeout=30)
+            b_ = dict(sc['backend'])
+            if b_['type'].startswith('geopackage'):
+                b_['grid'] = grid
+            return C.make_cache(b_, '/proc/self/cwd/cache', sqlite_timeout=30)
         return C.make_cache(sc['backend'])
 
     def make_tm():
@@ -475,15 +493,29 @@ def _run_tm(sc, tape):
                            minimize_meta_requests=sc['minimize'], concurrent_tile_creators=sc['creators'],
                            bulk_meta_tiles=sc['bulk'])
 
-    def client(cname, tm, reqs):
+    def client(cname, tm, reqs, dim=None):
+        dims = {'time': dim} if dim is not None else None
+
         def fn():
+            nonlocal tm
+            if isinstance(tm, dict):
+                holder = tm
+                if holder['tm'] is None and not holder['building']:
+                    holder['building'] = True
+                    holder['tm'] = make_tm()
+                else:
+                    sched.wait_until(lambda: holder['tm'] is not None, 'wait-startup')
+                tm = holder['tm']
             for req in reqs:
                 t0 = w.clock.now
-                rec = {'client': cname, 'req': req, 't0': t0, 'seq0': len(sched.log), 'tiles': [], 'exc': None}
+                rec = {'client': cname, 'req': req, 't0': t0, 'seq0': len(sched.log), 'tiles': [], 'exc': None, 'dim': dim}
                 try:
                     # as the services do it: the cache is used inside a session, which ends with cache.cleanup()
                     with tm.session():
-                        tiles = tm.load_tile_coords([tuple(c) for c in req])
+                        if dims is not None:
+                            tiles = tm.load_tile_coords([tuple(c) for c in req], dimensions=dims)
+                        else:
+                            tiles = tm.load_tile_coords([tuple(c) for c in req])
                     sched.check_alive()
                     for c, tile in zip(req, tiles):
                         if tile.source is None:
@@ -491,7 +523,7 @@ def _run_tm(sc, tape):
                                 continue        # the source has no image for this tile: nothing to serve, nothing to cache
                             rec['tiles'].append((tuple(c), False, None, 'no image in the response'))
                             continue
-                        ok, g, msg = U.check_tile_image(tile.source.as_image(), c, ocean=ocean)
+                        ok, g, msg = U.check_tile_image(tile.source.as_image(), c, ocean=ocean, shift=U.DIM_SHIFT[dim])
                         rec['tiles'].append((tuple(c), ok, g, msg))
                 except (SimAbort, SimCrash):
                     raise
@@ -526,10 +558,14 @@ def _run_tm(sc, tape):
             first_tm = None
             for pi, p in enumerate(sc['procs']):
                 proc = w.new_proc('p%d' % pi)
-                tm = make_tm()
-                first_tm = first_tm or tm
+                if sc.get('lazy') and not sc.get('stale_locks'):
+                    tm = {'tm': None, 'building': False}
+                else:
+                    tm = make_tm()
+                    first_tm = first_tm or tm
                 for ci, reqs in enumerate(p['clients']):
-                    sched.spawn(client('p%dc%d' % (pi, ci), tm, reqs), 'p%dc%d' % (pi, ci), proc)
+                    sched.spawn(client('p%dc%d' % (pi, ci), tm, reqs, (p.get('dims') or [None] * (ci + 1))[ci]),
+                                'p%dc%d' % (pi, ci), proc)
             if sc.get('stale_locks'):
                 names = set()
                 for p in sc['procs']:
@@ -617,36 +653,41 @@ def _oracle(sc, w, mode, name, outcome, responses, shared, killed, sched, grid, 
                     continue
                 return {'sig': 'C08:wrong-response:%s:%s' % (mode, name),
                         'msg': 'response of %s for tile %s is wrong: %s' % (r['client'], coord, msg)}
-            if g is not None and not any(e['gen'] & 255 == g and U.covers(e['bbox'], coord) for e in ok_fetches):
+            if g is not None and not any(e['gen'] & 255 == g and U.covers(e['bbox'], coord) and e.get('dim') == r.get('dim')
+                                         for e in ok_fetches):
                 return {'sig': 'C08:unattributable-response:%s:%s' % (mode, name),
                         'msg': 'tile %s served to %s carries generation %d which no successful fetch covering it has' % (
                             coord, r['client'], g)}
-            served[coord] = g
+            served[(coord, r.get('dim'))] = g
     # final cache contents through a fresh cache object
     cache = make_cache() if make_cache is not None else C.make_cache(sc['backend'])
     present = {}
-    for coord in _all_coords(5):
-        t = Tile(coord)
-        try:
-            found = cache.load_tile(t)
-        except Exception as ex:
-            return {'sig': 'C08:cache-unreadable:%s:%s' % (mode, name), 'msg': 'reading %s back raised %r' % (coord, ex)}
-        if found:
+    with_dims = any(p.get('dims') for p in sc['procs'])
+    for dim in ([None, '2020', '2021'] if with_dims else [None]):
+        for coord in _all_coords(5):
+            t = Tile(coord)
             try:
-                ok, g, msg = U.check_tile_image(t.source.as_image(), coord, ocean=bool(shared.get('ocean')))
+                found = cache.load_tile(t, dimensions={'time': dim}) if dim is not None else cache.load_tile(t)
             except Exception as ex:
-                ok, g, msg = False, None, 'not a decodable image: %r' % (ex,)
-            if not ok:
-                return {'sig': 'C08:wrong-tile-in-cache:%s:%s' % (mode, name),
-                        'msg': 'cache holds a wrong image for %s: %s' % (coord, msg)}
-            if g is not None and not any(e['gen'] & 255 == g and U.covers(e['bbox'], coord) for e in log if e['ok'] is not False):
-                return {'sig': 'C08:unattributable-tile-in-cache:%s:%s' % (mode, name),
-                        'msg': 'cached tile %s carries generation %d of no fetch covering it' % (coord, g)}
-            present[coord] = g
-    for coord in served:
-        if coord not in present:
+                return {'sig': 'C08:cache-unreadable:%s:%s' % (mode, name), 'msg': 'reading %s back raised %r' % (coord, ex)}
+            if found:
+                where = '%s%s' % (coord, ' time=%s' % dim if dim else '')
+                try:
+                    ok, g, msg = U.check_tile_image(t.source.as_image(), coord, ocean=bool(shared.get('ocean')), shift=U.DIM_SHIFT[dim])
+                except Exception as ex:
+                    ok, g, msg = False, None, 'not a decodable image: %r' % (ex,)
+                if not ok:
+                    return {'sig': 'C08:wrong-tile-in-cache:%s:%s' % (mode, name),
+                            'msg': 'cache holds a wrong image for %s: %s' % (where, msg)}
+                if g is not None and not any(e['gen'] & 255 == g and U.covers(e['bbox'], coord) and e.get('dim') == dim
+                                             for e in log if e['ok'] is not False):
+                    return {'sig': 'C08:unattributable-tile-in-cache:%s:%s' % (mode, name),
+                            'msg': 'cached tile %s carries generation %d of no fetch covering it' % (where, g)}
+                present[(coord, dim)] = g
+    for key in served:
+        if key not in present:
             return {'sig': 'C08:served-tile-not-cached:%s:%s' % (mode, name),
-                    'msg': 'tile %s was served but is not in the cache at quiescence' % (coord,)}
+                    'msg': 'tile %s%s was served but is not in the cache at quiescence' % (key[0], ' time=%s' % key[1] if key[1] else '')}
     # raw walk: nothing that is not a tile of the grid
     msg = _raw_walk(sc, w, cache, present) if realdir is None else _raw_rows(realdir, present)
     if msg:
@@ -662,7 +703,7 @@ def _oracle(sc, w, mode, name, outcome, responses, shared, killed, sched, grid, 
             # bulk meta tiles: tiles are fetched one by one but stored only if the whole meta tile succeeded,
             # so a successful fetch may legitimately be repeated after a sibling fetch failed
             continue
-        per.setdefault((e['bbox'], e['size']), []).append(e)
+        per.setdefault((e['bbox'], e['size'], e.get('dim')), []).append(e)
     holes_ = [tuple(c) for c in sc.get('holes') or []]
     hmx, hmy = sc['meta_size']
     hole_cells = set((c[0] // hmx, c[1] // hmy, c[2]) for c in holes_)
@@ -712,7 +753,7 @@ def _raw_rows(realdir, present):
     import sqlite3
     for root, dirs, files in sorted(os.walk(realdir)):
         for fn in sorted(files):
-            if not fn.endswith(('.mbtiles', '.mbtile')):
+            if not fn.endswith(('.mbtiles', '.mbtile', '.gpkg')):
                 continue
             db = sqlite3.connect(os.path.join(root, fn))
             try:
@@ -720,7 +761,7 @@ def _raw_rows(realdir, present):
             finally:
                 db.close()
             for x, y, z in rows:
-                if (x, y, z) not in present:
+                if ((x, y, z), None) not in present:
                     return 'database %s holds a row for %s which is not a tile the cache API reports' % (fn, (x, y, z))
     return None
 
@@ -731,8 +772,11 @@ def _raw_walk(sc, w, cache, present):
     if b['type'] == 'file':
         from mapproxy.cache.tile import Tile
         known = set()
-        for coord in present:
-            known.add(cache.tile_location(Tile(coord))[len('/simfs'):])
+        for coord, dim in present:
+            if dim is not None:
+                known.add(cache.tile_location(Tile(coord), dimensions={'time': dim})[len('/simfs'):])
+            else:
+                known.add(cache.tile_location(Tile(coord))[len('/simfs'):])
         for p, val in tree.items():
             if not p.startswith('/cache/') or val is None:
                 continue
@@ -765,7 +809,7 @@ def _raw_walk(sc, w, cache, present):
                         ents.append((i // 128, i % 128))
             for col, row in ents:
                 coord = (c0 + col, r0 + row, lvl)
-                if coord not in present:
+                if (coord, None) not in present:
                     return 'bundle %s holds a record for %s which is not a tile the cache API reports' % (p, coord)
     return None
 
